@@ -63,6 +63,11 @@ def open_source(kind: str, data: bytes, schedule=(), cleanup=None):
     cleanup = cleanup if cleanup is not None else []
     if kind == "bytesio":
         return io.BytesIO(data)
+    if kind == "bytesio_offset":
+        junk = b"\x0a\x0a\x00JUNK-BEFORE-THE-STREAM\x0a"
+        b = io.BytesIO(junk + data)
+        b.seek(len(junk))
+        return b
     if kind == "file":
         path = temp_file(data)
         fh = open(path, "rb")
